@@ -121,8 +121,8 @@ EmitStat ==
 ---------------------------------------------------------------------------
 \* ---- constants for the configurations ---------------------------------------------------
 F(x) == x * 65536
-SmallValsQuick    == {-9, -4, -1, 0, 1, 5, 12}
-SmallValsThorough == {-21, -9, -4, -1, 0, 1, 2, 5, 12, 16, 33}
+SmallValsQuick    == {-7, -2, 0, 1, 6}
+SmallValsThorough == {-21, -9, -4, -1, 0, 1, 5, 16, 33}
 
 RealAxesQuick == {
   <<F(100), F(400), F(900)>>,                   \* wght
@@ -139,7 +139,14 @@ RealAxesQuick == {
   <<F(-16000), F(300), F(16383)>>,              \* spans just below 32768.0
   <<7, 65543, 19660807>>                        \* odd raw values
 }
-RealAxesThorough == RealAxesQuick \cup {
+\* half-spans of 32768.0 and more: the differences do not fit a 16.16 number (known finding of C13)
+WideAxes == {
+  <<F(-20000), F(-20000), F(20000)>>,
+  <<F(-20000), F(20000), F(20000)>>,
+  <<-1073741824, 1073741824, 1073741824>>       \* default - min = 2^31 exactly
+}
+RealAxesQuickW == RealAxesQuick \cup WideAxes
+RealAxesThorough == RealAxesQuickW \cup {
   <<F(1), F(1), F(1000)>>, <<F(1), F(1000), F(1000)>>, <<F(-90), 0, F(90)>>,
   <<F(25), F(100), F(151)>>, <<F(-1), 0, F(1)>>, <<-65535, 1, 65537>>,
   <<F(-16384), 0, F(16383)>>, <<F(-32768), F(-32768), F(-1)>>, <<F(1), F(32767), F(32767)>>,
